@@ -537,7 +537,14 @@ def _process_dep_declarations(content: bytes, type: RenderType) -> Tuple[bytes, 
     all_parts: List[bytes] = list()
 
     def on_replace_match(match: "re.Match[bytes]") -> bytes:
-        all_parts.append(match.group("data"))
+        data = match.group("data")
+        # Text that only looks like our comment - it is not a `name,id,js,css` row, or it names a component
+        # that does not exist (e.g. in user-provided content) - is not ours to remove.
+        data_match = SCRIPT_NAME_REGEX.match(data)
+        if not data_match or data_match.group("comp_cls_hash").decode("utf-8", "replace") not in comp_hash_mapping:
+            return match[0]
+
+        all_parts.append(data)
         return b""
 
     content = COMPONENT_COMMENT_REGEX.sub(on_replace_match, content)
